@@ -365,7 +365,7 @@ CHECKS = {
 ADDENDA = {
     'C03': ' Round 8: custom codecs registered under every data_coding member name (the mixed-case ones included); texts filling message_payload up to 65535 octets.',
     'C05': ' Round 8: days pass inside the stateful batches (entries of the delivery stores outlive their time-to-live and are swept by the next inbound PDU); log.py / hook.py at every level.',
-    'C07': ' Regenerated obligation start_cycle_step_order (connect, reset, the three tasks, their end, close, back-off delay). Round 8: the simulators rotate the log level (TRACE .. CRITICAL, records discarded) and the application hook extends the library SimpleHook, so log.py and hook.py run as deployed; runs with application traffic (plain, unbuildable, segmented messages queued at any time, all bind modes) judged by the predicates.',
+    'C07': ' Regenerated obligation start_cycle_step_order (connect, reset, the three tasks, their end, close, back-off delay). Round 8: the simulators rotate the log level (TRACE .. CRITICAL, records discarded) and the application hook extends the library SimpleHook, so log.py and hook.py run as deployed; runs with application traffic (plain, unbuildable, segmented messages queued at any time, all bind modes) judged by the predicates. Theorem connections_closed (Model/Supervisor.lean conns, driver op supc): every connection that is established is closed, one at a time, each before the next is opened and before start() returns; the observed open / close times of the traffic-free runs are compared with the model\'s.',
     'C01': ' Session ledger additions: UDH-segmented messages; messages queued while the session is winding down after a drop; a message '
            'no Sender task reported is the known cancelled-sender finding only if the task holding it was cancelled, not if it ended of '
            'its own accord. Regenerated obligation handle_response_step_order. Round 8: sessions with a correlator that persists to files and texts with lone surrogates / astral characters sent with error_handling=replace.',
